@@ -7220,3 +7220,96 @@ func ruleURIPathWins(w *World, r *Report) {
 	}
 	r.ok("URI-PATH-WINS", key, w.PosOf(sets[0]), "the path is written last")
 }
+
+// CAST-ALL-INPUTS (C05): everything the matcher is handed has been cast.
+func ruleCastAllInputs(w *World, r *Report) {
+	r.Rule("CAST-ALL-INPUTS", "core.CastMatcher exists because the wrapped matcher only understands the types a JSON decoder produces.  In CastMatcher.Match every argument handed on to the wrapped matcher's Match — pattern, fact *and* the initial bindings, whose values the matcher uses as patterns where their variables occur — derives from core.cast (directly, or as a freshly built map whose values do).  Bindings passed through as they are make a Go-typed value in them (core.Map, []string: what rulio's own code puts there) an `unknown pattern type` error, or a match that is omitted", 3)
+	fn := w.Method("core", "CastMatcher", "Match")
+	key := "fn=" + fname(fn)
+	cast := w.Func("core", "cast")
+	isCast := func(v ssa.Value) bool {
+		c, ok := v.(*ssa.Call)
+		return ok && c.Common().StaticCallee() == cast
+	}
+	var delegate *ssa.CallCommon
+	var at ssa.Instruction
+	allInstrs(fn, func(in ssa.Instruction) {
+		if c := callOf(in); c != nil && c.IsInvoke() && c.Method.Name() == "Match" {
+			delegate, at = c, in
+		}
+	})
+	if delegate == nil {
+		r.exempt("CAST-ALL-INPUTS", key, w.Pos(fn.Pos()), "no delegation to a wrapped matcher found: shape not recognised, not decided")
+		return
+	}
+	for i, a := range delegate.Args {
+		name := "arg#" + itoa(i)
+		ok := dependsOn(a, isCast)
+		if !ok {
+			// a freshly built map (possibly merged with nil in a phi) filled with cast values
+			var roots []ssa.Value
+			var walk func(v ssa.Value, seen map[ssa.Value]bool)
+			walk = func(v ssa.Value, seen map[ssa.Value]bool) {
+				v = resolveSpill(v)
+				if seen[v] {
+					return
+				}
+				seen[v] = true
+				switch t := v.(type) {
+				case *ssa.Phi:
+					for _, e := range t.Edges {
+						walk(e, seen)
+					}
+				case *ssa.ChangeType:
+					walk(t.X, seen)
+				default:
+					roots = append(roots, v)
+				}
+			}
+			walk(a, map[ssa.Value]bool{})
+			all := len(roots) > 0
+			for _, rt := range roots {
+				if isNilConst(rt) {
+					continue
+				}
+				mm, isMake := rt.(*ssa.MakeMap)
+				filled := false
+				if isMake {
+					allInstrs(fn, func(in ssa.Instruction) {
+						if mu, ok := in.(*ssa.MapUpdate); ok && resolveSpill(mu.Map) == ssa.Value(mm) && dependsOn(mu.Value, isCast) {
+							filled = true
+						}
+					})
+				}
+				if !filled {
+					all = false
+				}
+			}
+			ok = all
+		}
+		if ok {
+			r.ok("CAST-ALL-INPUTS", key+" "+name, w.PosOf(at), "cast before it is handed to the wrapped matcher")
+		} else {
+			r.violation("CAST-ALL-INPUTS", key+" "+name, w.PosOf(at), "this argument reaches the wrapped matcher as the caller gave it: a Go-typed value in it is not understood")
+		}
+	}
+}
+
+// CAST-NUMBERS (C05): a Go integer is a number wherever it sits.
+func ruleCastNumbers(w *World, r *Report) {
+	r.Rule("CAST-NUMBERS", "the wrapped matcher compares numbers as float64 and converts a Go integer itself only when it is the whole pattern or fact, not when it is a member of an array.  core.cast, which prepares every input, therefore has cases for the integer types that reach it — int (Go callers; typed slices are unpacked by ISlice) and int64 (what the script engine exports for an integral value) — in its type switch.  Without them `[1]` from a Go caller or from a code condition never matches the `[1, 2]` of a stored JSON fact, although `1` matches `1`", 1)
+	fn := w.Func("core", "cast")
+	key := "fn=" + fname(fn)
+	have := assertedTypes(fn, func(v ssa.Value) bool { return v == ssa.Value(fn.Params[0]) })
+	var missing []string
+	for _, t := range []string{"int", "int64"} {
+		if !have[t] {
+			missing = append(missing, t)
+		}
+	}
+	if len(missing) > 0 {
+		r.violation("CAST-NUMBERS", key, w.Pos(fn.Pos()), "cast has no case for "+strings.Join(missing, ", ")+": such a number inside an array is compared as a structure and never equals a JSON number")
+		return
+	}
+	r.ok("CAST-NUMBERS", key, w.Pos(fn.Pos()), "Go integers are converted to float64")
+}
